@@ -192,7 +192,7 @@ class Reaching:
     free = {}
     rd = self
 
-    def sub(e, at, depth):
+    def sub(e, at, depth, nn=frozenset()):
       if isinstance(e, ast.Name) and isinstance(e.ctx, ast.Load):
         if e.id in keep:
           ds = rd.defs_at(at, e.id)
@@ -200,10 +200,14 @@ class Reaching:
           return e
         d = rd.single_def(at, e.id)
         if d is not None and d.how == 'assign' and d.value is not None and depth > 0 and (aliases or e.id not in rd.mutated):
-          return sub(clone(d.value), d.node, depth - 1)
+          nn2 = nn
+          if isinstance(d.value, ast.Name) and (e.id in nn or rd.nonnull_at(at, e.id)):
+            nn2 = nn | {d.value.id}        # w = r and w is known not to be None here: neither is r
+          return sub(clone(d.value), d.node, depth - 1, nn2)
         if d is not None and d.how == 'unpack' and d.index is not None and d.value is not None and depth > 0 and e.id not in rd.mutated:
           # a, b = [x, y]  (possibly through a local naming the list): the element at the target's position
-          seq = sub(clone(d.value), d.node, depth - 1)
+          nn3 = nn | ({d.value.id} if isinstance(d.value, ast.Name) else frozenset())     # unpacking succeeds: the value is not None
+          seq = sub(clone(d.value), d.node, depth - 1, nn3)
           if isinstance(seq, (ast.Tuple, ast.List)) and d.index < len(seq.elts) and not any(isinstance(x, ast.Starred) for x in seq.elts):
             return seq.elts[d.index]
         if d is None and pathenv is not None and at is node and e.id in pathenv and depth > 0 and e.id not in rd.mutated:
@@ -213,6 +217,12 @@ class Reaching:
             saved = pathenv
             return rd.expand(pd.node, pd.value, depth - 1, keep, aliases, penv)[0]
         ds = rd.defs_at(at, e.id)
+        if d is None and len(ds) > 1 and depth > 0 and e.id not in rd.mutated:
+          # `r = None` on one path, a value on the other, and the use is guarded by `r is not None` (possibly through an
+          # alias w = r): only the value definition is live here
+          live = [x for x in ds if not (x.how == 'assign' and isinstance(x.value, ast.Constant) and x.value.value is None)]
+          if len(live) == 1 and live[0].how == 'assign' and live[0].value is not None and (e.id in nn or rd.nonnull_at(at, e.id)):
+            return sub(clone(live[0].value), live[0].node, depth - 1)
         if ds:
           free[e.id] = free.get(e.id, frozenset()) | frozenset(x.node.id for x in ds)
         return e
@@ -225,11 +235,42 @@ class Reaching:
               bound.add(t.id)
         if isinstance(e, ast.Lambda):
           bound |= {a.arg for a in e.args.args}
-        return _map_children(e, lambda c: c if (isinstance(c, ast.Name) and c.id in bound) else sub(c, at, depth))
-      return _map_children(e, lambda c: sub(c, at, depth))
+        return _map_children(e, lambda c: c if (isinstance(c, ast.Name) and c.id in bound) else sub(c, at, depth, nn))
+      return _map_children(e, lambda c: sub(c, at, depth, nn))
 
     out = fold(sub(clone(expr), node, depth))
     return out, free
+
+  def nonnull_at(self, at, name):
+    """Some test dominating `at` asserts `name is not None` (directly or on a local that is a plain alias of it)."""
+    from mmsa import cfg as cfgmod, pathcond
+    cache = self.__dict__.setdefault('_nn_cache', {})
+    if '_doms' not in self.__dict__:
+      self._doms = self.cfg.dominators(cfgmod.no_exc)
+    key = at.id
+    if key not in cache:
+      cache[key] = cfgmod.dominating_conditions(self.cfg, at, self._doms)
+    # `at` may itself be the definition `w = name` followed by the test: also look at the conditions of uses is not needed
+    for e, taken, tn in cache[key]:
+      dnf = pathcond.literals(e, taken)
+      if len(dnf) != 1:
+        continue
+      for atom, t in dnf[0]:
+        if isinstance(atom, ast.Compare) and len(atom.ops) == 1 and isinstance(atom.ops[0], (ast.Is, ast.IsNot)) and isinstance(atom.left, ast.Name) \
+            and isinstance(atom.comparators[0], ast.Constant) and atom.comparators[0].value is None:
+          notnone = t if isinstance(atom.ops[0], ast.IsNot) else not t
+          if not notnone:
+            continue
+          left, hops = atom.left.id, 0
+          while left != name and hops < 4:
+            d = self.single_def(tn, left)
+            if d is not None and d.how == 'assign' and isinstance(d.value, ast.Name):
+              left, hops = d.value.id, hops + 1
+            else:
+              break
+          if left == name:
+            return True
+    return False
 
   def canon(self, node, expr, keep=()):
     e, free = self.expand(node, expr, keep=keep)
